@@ -21,6 +21,9 @@ import (
 // dwacKey is the context key of a connection's watchdog ack channel.
 type dwacKey struct{}
 
+// errcKey is the context key of a connection's handshake result channel.
+type errcKey struct{}
+
 var (
 	// ErrMissingStateMachine is returned by Dial or DialTLS when
 	// the Client does not have a valid StateMachine set.
@@ -217,7 +220,15 @@ func (cli *Client) handshake(c diam.Conn) (diam.Conn, error) {
 	// Buffered, so that a CEA handled after the handshake has given up
 	// does not block the connection's reader forever.
 	errc := make(chan error, 1)
-	cli.Handler.mux.Handle("CEA", handleCEA(cli.Handler, errc))
+	// The CEA handler is shared by every connection of this state machine:
+	// keep the channel with the connection so that an answer reaches the
+	// handshake of the connection it arrived on.
+	c.SetContext(context.WithValue(c.Context(), errcKey{}, errc))
+	cli.Handler.mux.Handle("CEA", diam.HandlerFunc(func(c diam.Conn, m *diam.Message) {
+		if ch, ok := c.Context().Value(errcKey{}).(chan error); ok {
+			handleCEA(cli.Handler, ch)(c, m)
+		}
+	}))
 
 	var dwac chan struct{}
 	if cli.EnableWatchdog {
